@@ -1,7 +1,7 @@
 SPECIFICATION FairSpec
 CONSTANTS
- Prog <- P_MNA
- Place <- PlaceAny
+ Prog <- P_CANL
+ Place <- PlaceLocal
  RootFn = "root"
  EnvCancelRoot = FALSE
  MailboxLocked = TRUE
